@@ -8,11 +8,17 @@ Go sources modelled (statement order mirrored):
   `UploadUserSmartContract`, `CompassHandover` (loop `for i := len(sigs); i > 0; i--` over the
   signature prefixes `sigs[0:i]`, `bytes.Equal(tx.Data(), contractABI.Pack(method, args…))`)
   and of `UploadSmartContract` (`tx.Data() == bytecode ++ constructor input`);
-  `BuildCompassConsensus` (turnstone_abi.go).
+  `BuildCompassConsensus` (turnstone_abi.go).  For `UploadSmartContract` the Go code compares
+  `tx.Data()` with ONE byte string built as `bytecode`, followed — only when the message has a
+  constructor input — by the re-packed constructor arguments; `upData` is that string for both
+  shapes of the message (`ctor = []`: the bare bytecode, nothing may follow it).
 * util/libcons/consensus.go + x/evm/types/proofs_hash_bytes.go — `VerifyEvidence` over the
   evidence of all validators (`winnerOf`, built on `Model/Libcons.lean`): proofs are grouped by
   `sha256(BytesToHash())`, and `TxExecutedProof.BytesToHash` is the serialized transaction FOLLOWED
   BY the serialized receipt, so the receipt is part of a proof's identity.
+* the used-transaction set (`isTxProcessed` / `setTxAsAlreadyProcessed`) is keyed by `tx.Hash()` of
+  the DECODED transaction on both sides, so it identifies the remote transaction whatever encoding
+  the evidence bytes used (`TxProof.hash` vs `TxProof.enc`).
 * x/evm/keeper/attest.go      — `attestMessageWrapper` (cache context, committed iff the result is
   nil, `ErrEthTxNotVerified` or `ErrEthTxFailed`; the message is removed inside that cache
   context), `routerAttester` (receipt status gate, deferred `setTxAsAlreadyProcessed` inside the
@@ -149,8 +155,13 @@ structure TxProof where
   data : Bytes             -- `tx.Data()`
   receipt : Option Nat     -- `none`: `GetReceipt` fails (no / undecodable receipt); else `Status`
   deployLog : Bool         -- the receipt carries a decodable `ContractDeployed` log
-  variant : Nat := 0       -- everything else in the serialized receipt (gas used, other logs):
-                           -- two proofs are byte-identical iff all five fields agree
+  variant : Nat := 0       -- everything else in the serialized receipt (gas used, other logs)
+  enc : Nat := 0           -- which of the valid serializations of THIS transaction `SerializedTX` is:
+                           -- 0 = the canonical EIP-2718 / legacy encoding (`keccak(bytes) = tx.Hash()`),
+                           -- n > 0 = another encoding that `UnmarshalBinary` accepts and `MarshalBinary`
+                           -- reproduces (EIP-4844 network form carrying blob sidecar n).  It is part of
+                           -- the evidence bytes (`BytesToHash`), NOT of `tx.Hash()`:
+                           -- two proofs are byte-identical iff all six fields agree
 deriving Repr, DecidableEq, Inhabited
 
 inductive Winner where
